@@ -241,6 +241,97 @@ func c18GenSeed(r *core.Rng) string {
 	return c18Seeds[r.Intn(len(c18Seeds))]
 }
 
+// c18Layout spreads a statement over lines and puts comments between its tokens (never inside a quoted text). It returns the
+// text and the same text with every comment character other than CR / LF replaced by a blank.
+func c18Layout(r *core.Rng, src string) (laid, blank string) {
+	var a, b strings.Builder
+	quote := rune(0)
+	words := []string{"note", "x", "日本語", "a 'quoted' word", "SELECT", "-- not a line comment here", "*", "é", "t\tab"}
+	brk := func() string { return []string{"\n", "\r\n", "\r", "\n\n", "\r\n\r\n"}[r.Intn(5)] }
+	emit := func(c string, isComment bool) {
+		a.WriteString(c)
+		if !isComment {
+			b.WriteString(c)
+			return
+		}
+		for _, ch := range c {
+			if ch == '\r' || ch == '\n' {
+				b.WriteRune(ch)
+			} else {
+				b.WriteByte(' ')
+			}
+		}
+	}
+	rs := []rune(src)
+	for i := 0; i < len(rs); i++ {
+		ch := rs[i]
+		if quote != 0 {
+			emit(string(ch), false)
+			if ch == '\\' && i+1 < len(rs) {
+				i++
+				emit(string(rs[i]), false)
+			} else if ch == quote {
+				quote = 0
+			}
+			continue
+		}
+		if ch == '\'' || ch == '"' || ch == '`' {
+			quote = ch
+			emit(string(ch), false)
+			continue
+		}
+		// comments the statement brings along are copied as they are
+		if ch == '/' && i+1 < len(rs) && rs[i+1] == '*' {
+			j := i + 2
+			for j+1 < len(rs) && !(rs[j] == '*' && rs[j+1] == '/') {
+				j++
+			}
+			if j+1 < len(rs) {
+				j += 2
+			} else {
+				j = len(rs)
+			}
+			emit(string(rs[i:j]), false)
+			i = j - 1
+			continue
+		}
+		if ch == '-' && i+1 < len(rs) && rs[i+1] == '-' {
+			j := i
+			for j < len(rs) && rs[j] != '\n' && rs[j] != '\r' {
+				j++
+			}
+			emit(string(rs[i:j]), false)
+			i = j - 1
+			continue
+		}
+		if ch == ' ' && r.P(35) {
+			switch r.Intn(5) {
+			case 0:
+				emit(brk(), false)
+			case 1:
+				emit(" ", false)
+				emit("/* "+words[r.Intn(len(words))]+brk()+words[r.Intn(len(words))]+" */", true)
+				emit(" ", false)
+			case 2:
+				emit(" ", false)
+				emit("/*"+brk()+words[r.Intn(len(words))]+brk()+brk()+"*/", true)
+				emit(brk(), false)
+			case 3:
+				emit(" ", false)
+				emit("-- "+words[r.Intn(len(words))], true)
+				emit(brk(), false)
+			default:
+				emit(" ", false)
+				emit("/* "+words[r.Intn(len(words))]+" */", true)
+				emit(" ", false)
+			}
+			continue
+		}
+		emit(string(ch), false)
+	}
+	return a.String(), b.String()
+}
+
 func c18Mutate(r *core.Rng, s string) string {
 	b := []byte(s)
 	for n := r.Range(1, 4); n > 0; n-- {
@@ -421,6 +512,28 @@ func c18Case(w *core.Worker, i int) {
 			in = strings.Join(t, " ")
 		case 2, 3:
 			in = c18GenSeed(r)
+		case 4:
+			// a statement laid out over several lines with comments, and a syntax error planted behind them: the reported
+			// position lies inside the input and is the one reported for the same text with every comment blanked out
+			// (comments are white space; blanking keeps their line breaks)
+			laid, blank := c18Layout(r, c18GenSeed(r))
+			tail := []string{" FROM FROM", " )", " SELECT SELECT ,", " 'unterminated", " ;; WHERE", " @", " 1 +"}[r.Intn(7)]
+			lb := []string{"\n", "\r\n", "\r", " "}[r.Intn(4)]
+			in = laid + lb + tail
+			in2 := blank + lb + tail
+			_, e1, p1 := c18Parse(in, false, false)
+			_, e2, p2 := c18Parse(in2, false, false)
+			if p1 == "" && p2 == "" {
+				s1, ok1 := e1.(*parser.SyntaxError)
+				s2, ok2 := e2.(*parser.SyntaxError)
+				switch {
+				case (e1 == nil) != (e2 == nil):
+					w.Violation("comment-changes-parse", fmt.Sprintf("the text parses (%v) with its comments and (%v) with the comments blanked out\ninput: %q", e1, e2, truncateStr(in, 400)), c18Replay{Input: in, Detail: "comments blanked: " + in2})
+				case ok1 && ok2 && (s1.Line != s2.Line || s1.Char != s2.Char):
+					w.Violation("error-position:comment", fmt.Sprintf("syntax error reported at line %d column %d; with the comments blanked out (same line breaks) at line %d column %d: %s\ninput: %q", s1.Line, s1.Char, s2.Line, s2.Char, s1.Message, truncateStr(in, 400)), c18Replay{Input: in, Detail: "comments blanked: " + in2})
+				}
+				w.Count("layouts_with_comments_compared", 1)
+			}
 		default:
 			in = c18Mutate(r, c18GenSeed(r))
 		}
